@@ -25,6 +25,25 @@ CELL = GRAIN * 512
 NAMES = {"plain": "disk-s{:03d}.vmdk", "spaces": 'win "C" drive (copy 2) - s{:03d}.vmdk', "unicode": "dïsk-✓-😀 s{:03d}.vmdk"}
 
 
+_LEADS = None
+
+
+def leads():
+    """Guest content a raw (FLAT / VMFS / plain) extent may start with: other containers' signatures and whole headers (a disk
+    onto which an image file was written raw, nested virtualisation, a carve).  The descriptor says what an extent is."""
+    global _LEADS
+    if _LEADS is None:
+        ents = [("D", 1), ("Z", 0), ("D", 2), ("D", 3)]
+        h, _ = enc_vmdk.build_hosted(ents, [True], capacity=4 * GRAIN, grain=GRAIN, gtes=4, file_id=0x55, max_pos=4)
+        c, _ = enc_vmdk.build_cowd([("D", 1), ("U", 0), ("D", 2), ("D", 3)], [True], capacity=4 * GRAIN, grain=GRAIN, file_id=0x55, max_pos=4)
+        s, _ = enc_vmdk.build_sesparse(ents, [True], capacity=4 * GRAIN, grain=GRAIN, gt_sectors=1, file_id=0x55, max_pos=4)
+        hd, _ = enc_hds.build({"ver": 2, "n": 3, "cb": 1, "bat": {0: 1, 1: 0, 2: 2}, "size": 3}, cluster_size=CELL, file_id=0x55, P=3)
+        _LEADS = [b"KDMV", b"COWD", b"\xbe\xba\xfe\xca", b"KDMV\x01\0\0\0\x03\0\0\0", b"# Disk DescriptorFile\nversion=1\n", b"WithoutFreeSpace", b"WithouFreSpacExt",
+                  b"conectix", b"vhdxfile", b"QFI\xfb\0\0\0\x03", b"<<< Oracle VM VirtualBox Disk Image >>>\n"]
+        _LEADS += [v.peek_bytes(0, min(v.size(), 2048)) for v in (h, c, s, hd)]
+    return _LEADS
+
+
 def _extent_file(e, i, rng, cell=CELL, grain=GRAIN, slack_ok=False):
     """-> (VirtualFile, host: cell -> file byte offset)"""
     n = e["n"]
@@ -33,7 +52,8 @@ def _extent_file(e, i, rng, cell=CELL, grain=GRAIN, slack_ok=False):
     if t in ("FLAT", "VMFS", "PLAIN"):
         # the backing file may be longer than the range the descriptor declares (pre-allocated / shared files)
         slack = rng.choice([0, 0, 512, cell, 3 * cell + 512]) if (t != "PLAIN" and slack_ok) else 0
-        vf = VirtualFile(n * cell + slack, [(0, n * cell + slack, "pat", i)], fid=i)
+        lead = (e.get("lead") or b"")[:n * cell]
+        vf = VirtualFile(n * cell + slack, ([(0, len(lead), "bytes", lead)] if lead else []) + [(len(lead), n * cell + slack - len(lead), "pat", i)], fid=i)
         return vf, {c: c * cell for c in range(n)}
     pos = list(range(1, n + 2))
     rng.shuffle(pos)
@@ -58,10 +78,17 @@ def _extent_file(e, i, rng, cell=CELL, grain=GRAIN, slack_ok=False):
 def _built(opener, exts, hosts, note, cell=CELL):
     ncells = sum(e["n"] for e in exts)
 
+    leadb = {i: e["lead"] for i, e in enumerate(exts) if e.get("lead")}
+
     def tokb(tok, a, n):
         if tok["k"] != "D":
             return None
-        return patterns.pat(tok["f"], hosts[tok["f"]][tok["c"]] + a, n)
+        o = hosts[tok["f"]][tok["c"]] + a
+        r = patterns.pat(tok["f"], o, n)
+        ld = leadb.get(tok["f"])
+        if ld and o < len(ld):   # the look-alike bytes a raw extent starts with
+            r = ld[o:o + n] + r[len(ld[o:o + n]):]
+        return r
 
     return disk.Built(open=opener, cell=cell, size=ncells * cell, bases={}, note=note, tok_bytes=tokb)
 
@@ -136,13 +163,17 @@ def direction_A(ctx, sts, mode):
         try:
             for st in chunk:
                 exts = _exts_of(st)
+                for e in exts:
+                    if e["type"] in ("FLAT", "VMFS", "PLAIN") and rng.random() < 0.5:
+                        e["lead"] = rng.choice(leads())
                 view = disk.norm_view(st["view"])
                 reals = []
                 if mode == "vmdk":
                     b, d = realise_descriptor(exts, rng, wdir)
                     reals.append(("vmdk-descriptor", b, d))
                     if all(e["type"] != "VMFS" or True for e in exts):
-                        reals.append(("vmdk-handles", realise_handles(exts, rng), None))
+                        # without a descriptor the reader has to tell an extent's kind from its content: no look-alikes there
+                        reals.append(("vmdk-handles", realise_handles([{k: v for k, v in e.items() if k != "lead"} for e in exts], rng), None))
                 else:
                     b, d = realise_hdd(exts, rng, wdir)
                     reals.append(("hdd-storages", b, d))
